@@ -14,20 +14,20 @@
 (* writes config iff v is a documented value.                              *)
 (***************************************************************************)
 EXTENDS Naturals, Sequences, FiniteSets, TLC
-CONSTANTS Formulas, TrainFrames, NewFrames, Modes, BadValues, MaxLen
-VARIABLES config, designs, objs, hist
-vars == <<config, designs, objs, hist>>
+CONSTANTS Formulas, TrainFrames, NewFrames, Modes, BadValues, MaxLen, UserTransforms
+VARIABLES config, designs, objs, hist, registry
+vars == <<config, designs, objs, hist, registry>>
 
 Ref(f, D, p, F, m) == <<"val", f, D, p, F, m>>
 
-Init == config = "error" /\ designs = <<>> /\ objs = <<>> /\ hist = <<>>
+Init == config = "error" /\ designs = <<>> /\ objs = <<>> /\ hist = <<>> /\ registry = {}
 Room == Len(hist) < MaxLen
 
 Build(f, D) ==
   /\ Room
   /\ designs' = Append(designs, [f |-> f, D |-> D, fit |-> D, params_set |-> TRUE, slices |-> <<"slices", f, D>>])
   /\ hist' = Append(hist, [op |-> "build", f |-> f, D |-> D])
-  /\ UNCHANGED <<config, objs>>
+  /\ UNCHANGED <<config, objs, registry>>
 \* evaluate_new_data on part p of design k
 Eval(k, p, F) ==
   /\ Room
@@ -38,16 +38,23 @@ Eval(k, p, F) ==
                                  slices |-> IF p = "common" THEN d.slices ELSE <<"slices", d.f, fit, F>>])
         /\ designs' = [designs EXCEPT ![k].fit = fit, ![k].params_set = TRUE]
   /\ hist' = Append(hist, [op |-> "eval", d |-> k, p |-> p, F |-> F])
-  /\ UNCHANGED config
+  /\ UNCHANGED <<config, registry>>
 SetConfig(v) ==
   /\ Room
   /\ config' = IF v \in Modes THEN v ELSE config      \* an undocumented value is refused
   /\ hist' = Append(hist, [op |-> "config", v |-> v])
-  /\ UNCHANGED <<designs, objs>>
+  /\ UNCHANGED <<designs, objs, registry>>
+\* register_stateful_transform(cls): adds a name to the process-wide registry of transforms
+Register(name) ==
+  /\ Room /\ name \notin registry
+  /\ registry' = registry \cup {name}
+  /\ hist' = Append(hist, [op |-> "register", v |-> name])
+  /\ UNCHANGED <<config, designs, objs>>
 Next ==
   \/ \E f \in Formulas, D \in TrainFrames : Build(f, D)
   \/ \E k \in 1..Len(designs), p \in {"common", "group"}, F \in NewFrames \cup TrainFrames : Eval(k, p, F)
   \/ \E v \in Modes \cup BadValues : SetConfig(v)
+  \/ \E nm \in UserTransforms : Register(nm)
 Spec == Init /\ [][Next]_vars
 
 (* ---- properties ---- *)
@@ -63,5 +70,7 @@ ConfigDiscipline ==
   [][ config' # config => (hist'[Len(hist')].op = "config" /\ hist'[Len(hist')].v \in Modes /\ config' = hist'[Len(hist')].v) ]_vars
 ConfigValid == config \in Modes
 \* write sets: which cells an operation may change
-WriteSet(op) == IF op.op = "config" /\ op.v \in Modes THEN {"config"} ELSE {}
+WriteSet(op) == IF op.op = "config" /\ op.v \in Modes THEN {"config"} ELSE IF op.op = "register" THEN {"registry"} ELSE {}
+\* the registry only grows, and only through Register
+RegistryDiscipline == [][ registry' # registry => (hist'[Len(hist')].op = "register" /\ registry' = registry \cup {hist'[Len(hist')].v}) ]_vars
 =============================================================================
